@@ -366,6 +366,10 @@ for _k, _t in (('puback_props127', 'thorough'), ('puback_props128', 'opt'), ('pu
     K('c02_v5_' + _k, {'C02': _t, 'C03': 'thorough'}, est=600, timeout=3600, stubs=_st, mem='XL',
       bounds='v5.0 %s with reason code and one Reason String so that the property section is %s bytes (Property Length field one/two bytes); id, first and last string byte symbolic' % (_k.split('_')[0].upper(), _k[-3:]),
       symbolic='id, first byte, last byte', encodes=['v5_0 ack builder/size/to_continuous_buffer/parse', 'Properties::{parse,size,to_continuous_buffer}', 'MqttString'])
+for _k in ('puback', 'pubrec', 'pubrel', 'pubcomp'):
+    K('c02_v5_%s_parse_props128' % _k, {'C02': 'thorough', 'C04': 'thorough'}, est=600, timeout=3600, stubs=_st, mem='L',
+      bounds='v5.0 %s body of 133 bytes: id (all u16 >= 1), reason code 0, Property Length 80 01, one Reason String of 125 bytes (first byte symbolic ASCII): parse, size(), re-serialisation' % _k.upper(),
+      symbolic='id, first string byte', encodes=['v5_0 ack parse/size/to_continuous_buffer', 'Properties::{parse,size}', 'MqttString::decode'])
 S('st_send_pubrel_states_v311', {'C15': 'quick', 'C06': 'quick', 'C11': 'thorough'}, est=400,
   bounds='PUBREL(k) sent by a v3.1.1 client in every status x need_store, keep-alive symbolic', symbolic='status, need_store, keep-alive, k', encodes=['process_send_v3_1_1_pubrel', 'send_post_process'])
 S('st_send_connack_v5_resume_count', {'C12': 'quick', 'C06': 'thorough', 'C16': 'thorough'}, stubs=_st, est=900, mem='L', timeout=3600,
